@@ -25,7 +25,8 @@ fn mover(r: &mut Rng) -> Op {
   let d = [0u64, 1, 5, 50][r.below(4)];
   match r.below(10) {
     0 | 1 | 2 => Op::ObserveOn,
-    3 | 4 | 5 => Op::Delay(d),
+    3 | 4 => Op::Delay(d),
+    5 => Op::DelayUs([250, 999, 1500][r.below(3)]),
     6 => Op::DelayAt(*r.pick(&[-30i64, 0, 40, 3_600_000])),
     7 => Op::DelaySubscription(d),
     8 => Op::DelaySubscriptionAt(*r.pick(&[-30i64, 40, 3_600_000])),
@@ -185,6 +186,7 @@ pub fn judge(c: &Case, o: &Result<Obs, String>) -> Option<(String, serde_json::V
   for op in &c.ops {
     match op {
       Op::Delay(d) | Op::DelaySubscription(d) => total += d * MS,
+      Op::DelayUs(d) => total += d * 1000,
       Op::DelayAt(off) | Op::DelaySubscriptionAt(off) if *off > 0 => {
         total += *off as u64 * MS;
         tol += o.eps;
@@ -227,7 +229,7 @@ pub fn run(cfg: &Cfg, rep: &mut Report) {
     }
     for op in &c.ops {
       if op.uses_scheduler() {
-        rep.set("operators_covered", &format!("{}{}", op.name(), if matches!(op, Op::Delay(_) | Op::DelayAt(_) | Op::ObserveOn) { fl } else { "" }));
+        rep.set("operators_covered", &format!("{}{}", op.name(), if matches!(op, Op::Delay(_) | Op::DelayUs(_) | Op::DelayAt(_) | Op::ObserveOn) { fl } else { "" }));
       }
     }
     if let Ok(obs) = &o {
@@ -241,7 +243,7 @@ pub fn run(cfg: &Cfg, rep: &mut Report) {
       rep.distinct("distinct_schedules", obs.choice_hash ^ hash64(&(&c.ops, &c.acts)));
     }
     if let Some((kind, detail)) = judge(&c, &o) {
-      let name_of = |op: &Op| format!("{}{}", op.name(), if matches!(op, Op::Delay(_) | Op::DelayAt(_) | Op::ObserveOn) { fl } else { "" });
+      let name_of = |op: &Op| format!("{}{}", op.name(), if matches!(op, Op::Delay(_) | Op::DelayUs(_) | Op::DelayAt(_) | Op::ObserveOn) { fl } else { "" });
       // Blame: which scheduler operator of the case shows the same kind of
       // violation on its own (same script, same executor class, several
       // schedule seeds)? Falls back to the combination if none does.
@@ -271,7 +273,7 @@ pub fn run(cfg: &Cfg, rep: &mut Report) {
       // one-task-per-notification operators
       // (observe_on, delay, delay_at) is that family's reordering even if no
       // single operator happened to reproduce it within the sampled seeds.
-      let family = |op: &Op| matches!(op, Op::ObserveOn | Op::Delay(_) | Op::DelayAt(_));
+      let family = |op: &Op| matches!(op, Op::ObserveOn | Op::Delay(_) | Op::DelayUs(_) | Op::DelayAt(_));
       if blamed.is_none()
         && kind == "order_not_preserved"
         && exec_class(&c) == "any-order"
